@@ -262,6 +262,19 @@ theorem corrupt_reachable_detected {ctx : Ctx κ} {s : Store κ} (hnd : Manifest
 while copying with `art.Checksum`. -/
 theorem copy_verifies_fact : Dud.Facts.copyVerifies = true := by decide
 
+/-- **Regenerated-fact obligation: what is verified is what is written.**  In the copy branch of `checkoutFile` (helpers of the
+package looked through) every value compared with the recorded checksum derives from `checksum.Checksum` applied to a reader
+that tees the opened cache object into the exclusively created destination (`io.TeeReader` … `os.OpenFile`; or a copy into an
+`io.MultiWriter` over hasher and destination), and no other copy writes into the destination: the bytes that reach the workspace
+file are the bytes that were hashed, in ONE pass over the object — the model's `copyOut` hashes the very byte string it places.
+A verification pass followed by a separate copy pass (the object can change in between) does not satisfy this. -/
+def singlePass (l : List String) : Bool :=
+  l.contains "call:os.OpenFile" && (l.contains "call:io.TeeReader" || l.contains "call:io.MultiWriter")
+
+theorem copy_single_pass_fact :
+    Dud.Facts.copyHashedSources ≠ [] ∧ Dud.Facts.copyHashedSources.all singlePass = true ∧
+      Dud.Facts.copyUnhashedWriters = 0 := by decide
+
 /-! ## Negative witness and non-vacuity -/
 
 def C19.ctx : Ctx Nat :=
